@@ -315,7 +315,26 @@ fn kfold_once(c: &mut Case, n: usize, k: usize, shuffle: bool, sg: &str) -> Opti
     let cv = KFold { n_splits: k, shuffle };
     let ns = c.must("KFold::n_splits", || cv.n_splits())?;
     c.check("kfold.n_splits", ns == k, sg, || format!("n_splits() = {} for KFold {{ n_splits: {} }}", ns, k));
-    let folds: Folds = c.must("KFold::split", || cv.split(&x).collect::<Vec<_>>())?;
+    // one case in four: another split (other size, other k) is started and exhausted on the same thread while this one is
+    // open after its first fold — nested cross-validation does exactly that
+    let nested = c.index % 4 == 3;
+    c.bucket_if(nested, "another-split-while-this-one-is-open");
+    let folds: Folds = c.must("KFold::split", || {
+        if nested {
+            let mut it = cv.split(&x);
+            let mut out = Vec::new();
+            if let Some(f) = it.next() {
+                out.push(f);
+            }
+            let x2: DenseMatrix<f64> = DenseMatrix::zeros(n + 3, 1);
+            let inner = KFold { n_splits: 2 + (n % 3).min(n), shuffle: !shuffle }.split(&x2).count();
+            assert!(inner > 0);
+            out.extend(it);
+            out
+        } else {
+            cv.split(&x).collect::<Vec<_>>()
+        }
+    })?;
     check_folds(c, "kfold", n, k, shuffle, &folds, sg);
     Some(folds)
 }
